@@ -1,4 +1,5 @@
 import TV.Proofs.Publisher
+import TV.Proofs.MonitorPub
 /-!
 # C15 — Publish never blocks and every undelivered message is accounted for
 
@@ -48,5 +49,16 @@ theorem C15_no_goroutine_left :
 example : ∃ s, runActs init [.subscribe 1 .none 1 false true, .publish 7, .publish 8, .acquireR 0 1, .deliver 0 1, .acquireR 1 1,
     .tick, .timeout 1 1] = some s ∧ s.callbacks = [(true, 1, 1, 8)] ∧ s.pending = [] ∧ (s.subs.map (·.buf)) = [[7]] := by
   refine ⟨_, rfl, ?_⟩; decide
+
+/-! ### the model passes the monitors the driver applies to the implementation
+
+`ReachG`: Publish is issued only when no close is in progress, which holds at every quiescent point
+(`quiescent_closesDone`): between `close(done)` and `close(receiveCh)` the subscriber is still registered and a racing
+Publish still calls OnFiltered — the monitor's bookkeeping does not count that (witness in TV/Proofs/MonitorPub.lean). -/
+theorem C15_model_passes_monitor_buffers (s : St) (h : Reach s) :
+    Mon.buffersOK (MonSound.mstOf s) (Driver.Pub.obsOf s) = [] := MonSound.buffersOK_sound h
+
+theorem C15_model_passes_monitor_callbacks (s : St) (h : ReachG s) (hd : MonSound.distinctPubs s) (ht : MonSound.timeoutsOK s) :
+    Mon.callbacksOK (MonSound.mstOf s) (Driver.Pub.obsOf s) = [] := MonSound.callbacksOK_sound h hd ht
 
 end TV.C15
